@@ -145,7 +145,13 @@ func (d *DNSFilter) filterSetProperties(
 	if flt.Enabled {
 		if shouldRestart {
 			// Download the filter contents.
-			shouldRestart, err = d.update(flt)
+			var updated bool
+			updated, err = d.update(flt)
+			if err == nil && !updated {
+				// The new contents have no rules, so the file still holds
+				// the previous ones.  Don't let them stay in force.
+				err = d.clearContents(flt)
+			}
 		}
 	} else {
 		// TODO(e.burkov):  The validation of the contents of the new URL is
@@ -157,6 +163,25 @@ func (d *DNSFilter) filterSetProperties(
 	}
 
 	return shouldRestart, err
+}
+
+// clearContents replaces the rules file of flt, if there is one, with an empty
+// one.
+func (d *DNSFilter) clearContents(flt *FilterYAML) (err error) {
+	fltPath := flt.Path(d.conf.DataDir)
+	_, err = os.Stat(fltPath)
+	if errors.Is(err, os.ErrNotExist) {
+		return nil
+	} else if err != nil {
+		return fmt.Errorf("checking filter file: %w", err)
+	}
+
+	f, err := aghrenameio.NewPendingFile(fltPath, aghos.DefaultPermFile)
+	if err != nil {
+		return fmt.Errorf("clearing filter file: %w", err)
+	}
+
+	return f.CloseReplace()
 }
 
 // filterExists returns true if a filter with the same url exists in d.  It's
